@@ -9,7 +9,7 @@
                                                            scalar_noise_std_update, diagonal_noise_std_update (the variance, before sqrt)
     Axes (torch order): 0 = individual, 1 = visit, 2 = feature; stored innermost first, i.e. positions
     0 = feature, 1 = visit, 2 = individual. *)
-From Coq Require Import List NArith ZArith Bool Arith QArith.
+From Coq Require Import List NArith ZArith Bool Arith QArith Qabs.
 From Leaspy Require Import Base.Atoms Masked.Weighted Masked.Observed.
 Import ListNotations.
 Local Close Scope Q_scope.
@@ -69,31 +69,76 @@ Definition model_x_model (model : tensor atom) : tensor atom := tmap (fun x => a
 
 Definition scalar0 (a : atom) : tensor atom := mkT [] (fun _ => a).
 
-(** scalar_noise_std_update: noise_var = (y_l2 - 2 * s1 + s2) / n_obs  (0-dim tensors; we return the entry) *)
-Definition noise_var_scalar (y : wt) (model : tensor atom) : res atom :=
-  bind (y_L2_n_obs y) (fun p =>
+(** a plain torch binary operation (broadcasting; shapes that do not broadcast: RuntimeError) *)
+Definition tbin (op : atom -> atom -> atom) (a b : tensor atom) : res (tensor atom) :=
+  match tzip2 op a b with
+  | Some r => Ok r
+  | None => Err ERuntime
+  end.
+
+(** summed = sum_dim(-2 * y_x_model + model_x_model, <dims>): the sum is taken AFTER the combination, so that the
+    weights of y (carried by y_x_model) mask model_x_model too.  Both update rules compute it; they differ by the
+    summed axes only: all of them (scalar rule) / all but the feature axis (diagonal rule). *)
+Definition noise_summed (d : dimspec) (y : wt) (model : tensor atom) : res (tensor atom) :=
   bind (y_x_model y model) (fun yxm =>
-  bind (sum_dim azero DimDefault (OW yxm)) (fun s1 =>
-  bind (sum_dim azero DimDefault (OT (model_x_model model))) (fun s2 =>
-  Ok (adiv (aadd (asub (at_ (fst p) []) (amul (Fin (2 # 1)%Q) (at_ s1 []))) (at_ s2 []))
-           (ofN (at_ (snd p) []))))))).
+  bind (apply_operation yxm (OT (scalar0 (Fin (-2 # 1)%Q))) amul true) (fun m2 =>
+  bind (apply_operation m2 (OT (model_x_model model)) aadd false) (fun tot =>
+  sum_dim azero d (OW tot)))).
+
+(** the three dunder calls of [noise_summed] and Sqr("y") written point-wise, as instances of [nll_full]
+    (used to state and prove that padding is invisible to the noise rules) *)
+Definition f_tot : list nat -> atom -> atom -> atom :=
+  fun _ a b => aadd (amul (Fin (-2 # 1)%Q) (amul a b)) (amul b b).
+Definition f_sq : list nat -> atom -> atom -> atom := fun _ a _ => amul a a.
+
+(** noise_var = (y_l2 + summed) / n_obs.float()   (plain tensors) *)
+Definition noise_var_of (p : tensor atom * tensor N) (summed : tensor atom) : res (tensor atom) :=
+  bind (tbin aadd (fst p) summed) (fun num => tbin adiv num (tmap ofN (snd p))).
+
+(** scalar_noise_std_update: summed = sum_dim(-2 * y_x_model + model_x_model);
+    noise_var = (y_l2 + summed) / n_obs  (the variance, a 0-dim tensor, before the positivity check and sqrt) *)
+Definition noise_var_scalar (y : wt) (model : tensor atom) : res (tensor atom) :=
+  bind (y_L2_n_obs y) (fun p =>
+  bind (noise_summed DimDefault y model) (noise_var_of p)).
 
 (** diagonal_noise_std_update: summed = sum_dim(-2 * y_x_model + model_x_model, but_dim=LVL_FT);
     noise_var = (y_l2_per_ft + summed) / n_obs_per_ft *)
 Definition noise_var_diagonal (y : wt) (model : tensor atom) : res (tensor atom) :=
   bind (y_L2_n_obs_per_ft y) (fun p =>
-  bind (y_x_model y model) (fun yxm =>
-  bind (apply_operation yxm (OT (scalar0 (Fin (-2 # 1)%Q))) amul true) (fun m2 =>
-  bind (apply_operation m2 (OT (model_x_model model)) aadd false) (fun tot =>
-  bind (sum_dim azero (ButDim [LVL_FT]) (OW tot)) (fun summed =>
-  Ok (mkT (shape summed) (fun o => adiv (aadd (at_ (fst p) o) (at_ summed o)) (ofN (at_ (snd p) o))))))))).
+  bind (noise_summed (ButDim [LVL_FT]) y model) (noise_var_of p)).
 
 (** the documented estimator: residual sum of squares over OBSERVED entries divided by their number *)
 Definition rss_over_observed (y : wt) (model : tensor atom) : res atom :=
   let r := mkW (mkT (shape (value y)) (fun m => let d := asub (at_ (value y) m) (at_ model m) in amul d d)) (weight y) in
   bind (wsum_dim azero DimDefault r) (fun p => Ok (adiv (at_ (fst p) []) (ofN (at_ (snd p) [])))).
 
-(* ---- the F3 witness: 2 individuals x 1 visit x 2 features, y[0,0,1] missing *)
+Definition rss_over_observed_per_ft (y : wt) (model : tensor atom) : res (tensor atom) :=
+  let r := mkW (mkT (shape (value y)) (fun m => let d := asub (at_ (value y) m) (at_ model m) in amul d d)) (weight y) in
+  bind (wsum_dim azero (ButDim [LVL_FT]) r) (fun p => tbin adiv (fst p) (tmap ofN (snd p))).
+
+(** correspondence: the variance observed on the implementation ([obs], row-major, with its reversed shape) is the
+    model's, entry for entry: non-finite entries identical; finite entries equal up to the one rounding of the final
+    float64 division, |obs - v| * 2^52 <= |v| (all other operations are exact on the generated inputs). *)
+Definition atom_within_ulp (obs v : atom) : bool :=
+  match obs, v with
+  | Fin o, Fin q => Qle_bool (Qabs (o - q) * (4503599627370496 # 1))%Q (Qabs q)
+  | _, _ => atom_same obs v
+  end.
+
+Definition check_noise_case (c : bool * list nat * list atom * list N * list atom * list nat * list atom) : bool :=
+  match c with
+  | (diagonal, rs, yv, mask, mv, ors, obs) =>
+      match mk_weightedN (of_flat NaN rs yv) (Some (of_flat 0%N rs mask)) with
+      | Err _ => false
+      | Ok y =>
+          match (if diagonal then noise_var_diagonal else noise_var_scalar) y (of_flat NaN rs mv) with
+          | Ok v => shape_eqb (shape v) ors && list_eqb atom_within_ulp obs (to_flat v)
+          | Err _ => false
+          end
+      end
+  end.
+
+(* ---- the F3 witness (of the former scalar rule, which summed model^2 without the mask): 2 individuals x 1 visit x 2 features, y[0,0,1] missing *)
 Definition w_values : tensor atom := of_flat NaN [2; 1; 2] [Fin 1; Fin 0; Fin 2; Fin 3]%Q.
 Definition w_mask : tensor N := of_flat 0%N [2; 1; 2] [1; 0; 1; 1]%N.
 Definition w_model_a : tensor atom := of_flat NaN [2; 1; 2] [Fin 1; Fin 5; Fin 2; Fin 3]%Q.
